@@ -26,4 +26,5 @@ static inline uint32_t vg_spec_4(uint32_t c, const uint8_t * p) {
 extern const uint8_t * vg_crc_arg;
 extern uint32_t vg_crc_len;
 extern uint32_t vg_crc_ret;
+extern uint32_t vg_sw_ret;
 #endif
